@@ -275,3 +275,76 @@ theorem rowOf_written (kn cat dg : List Char) (k j : Nat) (hk : kn ≠ []) (hd :
 example : rowOf "bmm-opCatBmm_fp16      12288   \n".toList = some ("bmm Cmpt Exec", 12288, "Bmm_fp16") := by decide +kernel
 
 end AiuVerif.C11
+
+namespace AiuVerif.C11
+open AiuVerif.LogParse AiuVerif.PhaseName
+
+/-! ### the other two row shapes: no suffix, and `-NA` -/
+
+theorem category_single (k : List Char) : category [k] = "NotAvailable" := by simp [category]
+
+/-- a row without a category suffix: key `kernel Cmpt Exec`, category `NotAvailable` -/
+theorem rowOf_written_plain (kn dg : List Char) (k j : Nat) (hk : kn ≠ []) (hd : dg ≠ [])
+    (hkn : ∀ x ∈ kn, isNameCh x = true ∧ x ≠ '-') (hdg : ∀ x ∈ dg, x.isDigit = true)
+    (hign : hasSubL patPre (kn ++ (List.replicate (k + 1) ' ' ++ (dg ++ List.replicate j ' ')) ++ ['\n']) = false ∧
+            hasSubL patLx (kn ++ (List.replicate (k + 1) ' ' ++ (dg ++ List.replicate j ' ')) ++ ['\n']) = false)
+    (htot : (String.ofList kn == "Total") = false) :
+    rowOf (kn ++ (List.replicate (k + 1) ' ' ++ (dg ++ List.replicate j ' ')) ++ ['\n']) =
+      some (String.ofList kn ++ " Cmpt Exec", digitsVal dg, "NotAvailable") := by
+  unfold rowOf
+  rw [dataRow_written kn dg k j hk hd (fun x hx => (hkn x hx).1) hdg]
+  simp only [hign.1, hign.2, Bool.or_self, Bool.false_eq_true, if_false]
+  rw [catSplit_plain kn _ [] (fun x hx => (hkn x hx).2) (Nat.le_refl _)]
+  simp only [List.reverse_nil, List.nil_append, List.headD_cons, htot, Bool.false_eq_true, if_false, category_single]
+
+theorem catSplit_na : ∀ (k : List Char) (n : Nat) (cur : List Char), (∀ x ∈ k, x ≠ '-') → k.length + 3 ≤ n →
+    catSplit n cur (k ++ sepNA) = [cur.reverse ++ k, sepNA, []]
+  | [], 0, _, _, hn => by simp at hn
+  | [], n + 1, cur, _, _ => by
+    have hs : ([] : List Char) ++ sepNA = '-' :: ['N', 'A'] := rfl
+    rw [hs]
+    unfold catSplit
+    have h1 : sepOpCat.isPrefixOf ('-' :: ['N', 'A']) = false := by decide
+    have h2 : (('-' :: ['N', 'A']) == sepNA) = true := by decide
+    rw [if_neg (by rw [h1]; exact Bool.false_ne_true), if_pos h2]
+    simp [sepNA]
+  | x :: k, 0, _, _, hn => by simp at hn
+  | x :: k, n + 1, cur, hk, hn => by
+    have hx : x ≠ '-' := hk x List.mem_cons_self
+    have hx' : ('-' == x) = false := by simp [Ne.symm hx]
+    have h1 : sepOpCat.isPrefixOf (x :: (k ++ sepNA)) = false := by simp [sepOpCat, List.isPrefixOf, hx']
+    have h2 : ((x :: (k ++ sepNA)) == sepNA) = false := by
+      simp only [sepNA, List.cons_beq_cons, Bool.and_eq_false_imp]
+      intro h0; exact absurd (by simpa using h0) hx
+    have hs : (x :: k) ++ sepNA = x :: (k ++ sepNA) := rfl
+    rw [hs]
+    unfold catSplit
+    rw [if_neg (by rw [h1]; exact Bool.false_ne_true), if_neg (by rw [h2]; exact Bool.false_ne_true)]
+    rw [catSplit_na k n (x :: cur) (fun y hy => hk y (List.mem_cons_of_mem _ hy)) (by simp at hn ⊢; omega)]
+    simp
+
+theorem category_na (k : List Char) : category [k, sepNA, []] = "NotAvailable" := by
+  simp [category, sepNA, sepOpCat]
+
+/-- a `kernel-NA` row: key `kernel Cmpt Exec`, category `NotAvailable` -/
+theorem rowOf_written_na (kn dg : List Char) (k j : Nat) (hd : dg ≠ [])
+    (hkn : ∀ x ∈ kn, isNameCh x = true ∧ x ≠ '-') (hdg : ∀ x ∈ dg, x.isDigit = true)
+    (hign : hasSubL patPre ((kn ++ sepNA) ++ (List.replicate (k + 1) ' ' ++ (dg ++ List.replicate j ' ')) ++ ['\n']) = false ∧
+            hasSubL patLx ((kn ++ sepNA) ++ (List.replicate (k + 1) ' ' ++ (dg ++ List.replicate j ' ')) ++ ['\n']) = false)
+    (htot : (String.ofList kn == "Total") = false) :
+    rowOf ((kn ++ sepNA) ++ (List.replicate (k + 1) ' ' ++ (dg ++ List.replicate j ' ')) ++ ['\n']) =
+      some (String.ofList kn ++ " Cmpt Exec", digitsVal dg, "NotAvailable") := by
+  have hname : ∀ x ∈ kn ++ sepNA, isNameCh x = true := by
+    intro x hx
+    rcases List.mem_append.mp hx with hx | hx
+    · exact (hkn x hx).1
+    · simp only [sepNA, List.mem_cons, List.mem_nil_iff, or_false] at hx
+      rcases hx with rfl | rfl | rfl <;> decide
+  have hne : kn ++ sepNA ≠ [] := by simp [sepNA]
+  unfold rowOf
+  rw [dataRow_written _ dg k j hne hd hname hdg]
+  simp only [hign.1, hign.2, Bool.or_self, Bool.false_eq_true, if_false]
+  rw [catSplit_na kn _ [] (fun x hx => (hkn x hx).2) (by simp [sepNA])]
+  simp only [List.reverse_nil, List.nil_append, List.headD_cons, htot, Bool.false_eq_true, if_false, category_na]
+
+end AiuVerif.C11
